@@ -369,7 +369,19 @@ class Model:
         fi = self.file(rel)
         if name not in fi.assigns:
             raise AnchorMissing(f"{rel}::{name} (module-level assignment) not found")
-        return fi.assigns[name]
+        v = fi.assigns[name]
+        # a read-only view / a copy of another module-level table is that table: `X = MappingProxyType(_X_items)`, `X = dict(Y)`, `X = Y`
+        for _ in range(3):
+            inner = v
+            if isinstance(v, ast.Call) and len(v.args) == 1 and not v.keywords and (last_attr(v) or getattr(v.func, "id", "")) in ("MappingProxyType", "dict", "frozenset", "tuple", "list", "OrderedDict"):
+                inner = v.args[0]
+            if isinstance(inner, ast.Name) and inner.id in fi.assigns and inner.id != name:
+                v = fi.assigns[inner.id]
+            elif inner is not v and isinstance(inner, (ast.Dict, ast.Set, ast.List, ast.Tuple, ast.DictComp, ast.SetComp, ast.ListComp)):
+                v = inner
+            else:
+                break
+        return v
 
     def class_attr(self, rel, qualname, name) -> ast.AST:
         ci = self.cls(rel, qualname)
